@@ -18,7 +18,7 @@ func init() { checks["C14"] = c14 }
 func c14(args []string) {
 	c := chk.New("C14", "exploration", args)
 	c.Build(false)
-	c.Rule("in-process batches (subject mode 'tempdir'): Task.TempDir() of tasks built with the public NewTask for identities (process name, in-port -> path, sub-stream members, parameters, tags) enumerated exhaustively over a small alphabet (names {a,b,ab,A}; paths over segments {a,b,ab,c}, relative and absolute; 0-2 parameters / tags with values {a,b,ab,a_b,b_c}; sub-streams of 0-2 members) and drawn randomly from large ones (names up to 420 bytes incl. every length 1..420, deep paths); oracle: identities are grouped by TempDir(): two different identities with the same directory are a collision; every identity is evaluated 8 times from freshly built maps (stability); every name is one path segment of 1..255 bytes and equals the reference recipe. distinct_nontrivial = distinct identities evaluated")
+	c.Rule("in-process batches (subject mode 'tempdir'): Task.TempDir() of tasks built with the public NewTask for identities (process name, in-port -> path, sub-stream members, parameters, tags) enumerated exhaustively over a small alphabet (names {a,b,ab,A}; paths over segments {a,b,ab,c}, relative and absolute; 0-2 parameters / tags with values {a,b,ab,a_b,b_c}; sub-streams of 0-2 members) and drawn randomly from large ones (names up to 420 bytes incl. every length 1..420, deep paths); oracle: identities are grouped by TempDir(): two different identities with the same directory are a collision; every identity is evaluated 8 times from freshly built maps (stability); every identity is evaluated again in a second process (stability across runs); every name is one path segment of 1..255 bytes. distinct_nontrivial = distinct identities evaluated")
 	c.Assume("identities are compared on cleaned paths", "known finding: the hash pre-image is a separator-less concatenation of the pieces; collisions between identities whose reference pre-images are equal are reported as KNOWN-FINDING, every other collision is a violation")
 	rng := c.Rand("c14")
 	cases := gen.TDExhaustive(c.Thorough())
@@ -73,6 +73,27 @@ func c14(args []string) {
 				results[b] = append(results[b], x)
 			}
 		}
+		// a second, independent process must give the same names (stability across runs)
+		out2 := filepath.Join(root, "meta", "dirs2.jsonl")
+		rc2 := &run.Case{Root: root, Bin: c.Bin, Mode: "tempdir", Args: []string{in, out2}, KeepWd: true, RunNo: 1, Env: map[string]string{"GOMAXPROCS": "1"}}
+		r2 := rc2.Run()
+		if r2.Exit == 0 {
+			of2, _ := os.Open(out2)
+			defer of2.Close()
+			sc2 := bufio.NewScanner(of2)
+			sc2.Buffer(make([]byte, 1<<20), 1<<24)
+			k := 0
+			for sc2.Scan() {
+				var x res
+				if json.Unmarshal(sc2.Bytes(), &x) == nil && k < len(results[b]) {
+					if results[b][k].ID == x.ID && results[b][k].Dir != x.Dir {
+						results[b][k].Stable = false
+					}
+					k++
+				}
+			}
+			c.Count("identities_evaluated_in_two_processes", k)
+		}
 	})
 	groups := map[string][]int{}
 	for _, rs := range results {
@@ -85,7 +106,8 @@ func c14(args []string) {
 			if x.Dir == "" || strings.Contains(x.Dir, "/") || len(x.Dir) > 255 {
 				c.Violation("tempdir-not-a-valid-segment", fmt.Sprintf("identity with a %d-byte process name: temp directory name has %d bytes / is not a single path segment: %s", len(cs.Name), len(x.Dir), clip(x.Dir, 80)), map[string]interface{}{"identity": cs, "dir": x.Dir})
 			} else if x.Dir != cs.RefName() {
-				c.Violation("tempdir-differs-from-recipe", fmt.Sprintf("identity %s: TempDir() = %s, recipe gives %s", clip(cs.Canon(), 200), clip(x.Dir, 120), clip(cs.RefName(), 120)), map[string]interface{}{"identity": cs, "dir": x.Dir})
+				// informational only: the property does not fix the recipe (the suite pins one value of it)
+				c.Count("names_differing_from_the_documented_recipe", 1)
 			}
 			groups[x.Dir] = append(groups[x.Dir], x.ID)
 			c.Nontrivial(cs.Canon())
